@@ -27,6 +27,10 @@ const (
 	hIdxUndefV           // undef of vector type
 	hIdxPoisonV          // poison of vector type
 	hIdxParamV           // non-constant vector (instruction only)
+	hIdxElemUndefV       // constant vector with an undef element
+	hIdxElemPoisonV      // constant vector with a poison element
+	hIdxElemExprV        // constant vector with a constant-expression element
+	hIdxBoolV            // constant vector of i1
 	hIdxForms
 )
 
@@ -81,6 +85,23 @@ func (g *hGEP) index(name string, form int) (value.Value, bool) {
 			e1 = constant.NewInt(it, v+1)
 		}
 		return constant.NewVector(vt, e0, e1), true
+	case hIdxElemUndefV, hIdxElemPoisonV, hIdxElemExprV, hIdxBoolV:
+		if g.scalable {
+			vfCut("constant vectors with explicit elements are fixed-length")
+		}
+		vfAssume(g.vl == 2)
+		var e1 constant.Constant
+		switch form {
+		case hIdxElemUndefV:
+			e1 = constant.NewUndef(it)
+		case hIdxElemPoisonV:
+			e1 = constant.NewPoison(it)
+		case hIdxElemExprV:
+			e1 = constant.NewPtrToInt(constant.NewNull(types.I8Ptr), it)
+		default:
+			return constant.NewVector(g.vecTy(types.I1), constant.True, constant.False), true
+		}
+		return constant.NewVector(vt, constant.NewInt(it, v), e1), true
 	case hIdxUndefV:
 		return constant.NewUndef(vt), true
 	case hIdxPoisonV:
